@@ -167,6 +167,12 @@ def monitor_trace(tr):
         if keyok and got != exp:
             viol.append(dict(prop='C01', i=rec['i'], sig=dict(kind='wrong-result', algo=algo, exc=got[1] if got[0] == 'exc' else None),
                              msg='call x=%r returned %r, function gives %r' % (x, got, exp)))
+        # ---------------- C16: a call whose evaluation raises gives the caller THAT exception
+        if keyok and 'err' in fn and got != exp:
+            bm_ = dict(map(tuple, b['mem'])); ba_ = None if b['arch'] is None else dict(map(tuple, b['arch']))
+            if key['ok'] not in bm_ and not (ba_ is not None and key['ok'] in ba_):
+                viol.append(dict(prop='C16', i=rec['i'], sig=dict(kind='not-the-functions-exception', algo=algo, safe=cfg['safe'], got=got[1] if got[0] == 'exc' else 'a value'),
+                                 msg='call x=%r: the function raises %r, the caller got %r' % (x, exp[1], got)))
         # ---------------- C16 (safe degrade)
         if not keyok:
             tags['keyfail'] += 1
